@@ -91,6 +91,21 @@ def run_battery(prop: str, seed: int = 0) -> dict:
         results = pool.map(_job, jobs)
     out = {"mutants": len(mod.MUTANTS), "neutrals": len(mod.NEUTRALS), "detected": 0, "detected_fail_closed": 0,
            "silent_on_neutral": 0, "inapplicable": [], "failed": [], "cases": []}
+    # automatic neutral rewrites: whole-module reformat and renaming of every local of every analysed function
+    try:
+        from sa.selftest import autoneutral
+        auto = autoneutral.run(prop)
+        for kind2, res in auto.items():
+            out["neutrals"] += 1
+            if res["error"]:
+                out["failed"].append(f"automatic neutral rewrite `{kind2}` broke the analysis: {res['error'][:160]}")
+            elif res["alarms"]:
+                out["failed"].append(f"automatic neutral rewrite `{kind2}` raised an alarm: {res['alarms'][:3]}")
+            else:
+                out["silent_on_neutral"] += 1
+        out["automatic_neutral_rewrites"] = sorted(auto)
+    except Exception as e:  # pragma: no cover
+        out["failed"].append(f"automatic neutral rewrites crashed: {type(e).__name__}: {e}")
     for kind, name, r, expect in results:
         if r == "inapplicable":
             out["inapplicable"].append(name)
